@@ -394,6 +394,7 @@ func c13Subjects() []c13Subject {
 					}
 				}},
 				{"UnmarshalJSON", func(g, i int) { _ = s.UnmarshalJSON([]byte(fmt.Sprintf("[%d,%d]", i%24, (i+5)%24))) }},
+				{"Synchronize(again)", func(g, i int) { s.Synchronize(); s.Add(i % 24) }},
 			}, func() {}
 		}})
 	}
